@@ -564,17 +564,50 @@ func runNative(env *Env, cases []nativeCase, hs []*Harness) ([]nativeResult, err
 	if bout, berr := build.CombinedOutput(); berr != nil {
 		return nil, fmt.Errorf("native build of the harness against the current tree failed: %v\n%s", berr, string(bout))
 	}
-	cmd := exec.Command(bin, "-test.run", "TestVerifBatch$", "-test.timeout", "20m")
-	cmd.Dir = tmp
-	cmd.Env = goenv
-	out, err := cmd.CombinedOutput()
-	rb, rerr := os.ReadFile(batch + ".out")
-	if rerr != nil {
-		return nil, fmt.Errorf("native batch produced no output: %v\n%s", err, string(out))
-	}
+	// a fatal error of the Go runtime in the code under test (concurrent map access, ...)
+	// kills the whole process: the case it happened in gets that as its result, and the
+	// batch is resumed behind it
 	var res []nativeResult
-	if err := json.Unmarshal(rb, &res); err != nil {
-		return nil, err
+	for start, crashes := 0, 0; ; {
+		os.Remove(batch + ".out")
+		os.Remove(batch + ".out.part")
+		cmd := exec.Command(bin, "-test.run", "TestVerifBatch$", "-test.timeout", "20m")
+		cmd.Dir = tmp
+		cmd.Env = append(append([]string{}, goenv...), fmt.Sprintf("VERIF_BATCH_FROM=%d", start))
+		out, err := cmd.CombinedOutput()
+		if rb, rerr := os.ReadFile(batch + ".out"); rerr == nil {
+			var part []nativeResult
+			if err := json.Unmarshal(rb, &part); err != nil {
+				return nil, err
+			}
+			res = append(res, part...)
+			break
+		}
+		fatal := ""
+		for _, l := range strings.Split(string(out), "\n") {
+			if strings.HasPrefix(l, "fatal error:") {
+				fatal = l
+				break
+			}
+		}
+		crashes++
+		if fatal == "" || crashes > 25 {
+			return nil, fmt.Errorf("native batch produced no output: %v\n%s", err, string(out))
+		}
+		var part []nativeResult
+		if rb, rerr := os.ReadFile(batch + ".out.part"); rerr == nil {
+			json.Unmarshal(rb, &part)
+		}
+		res = append(res, part...)
+		idx := start + len(part)
+		if idx >= len(cases) {
+			return nil, fmt.Errorf("native batch produced no output: %v\n%s", err, string(out))
+		}
+		res = append(res, nativeResult{Harness: cases[idx].Harness, Shape: cases[idx].Shape, Panic: "the native run died: " + fatal})
+		start = idx + 1
+		if start >= len(cases) {
+			break
+		}
 	}
 	if len(res) != len(cases) {
 		return nil, fmt.Errorf("native batch: %d results for %d cases", len(res), len(cases))
